@@ -125,7 +125,7 @@ func Eval(ctx context.Context, c Case) (res Result) {
 			bad("panic: %v", p)
 		}
 		if len(res.Problems) > 0 {
-			res.Key = classify(S)
+			res.Key = classify(S, res.Problems)
 		}
 	}()
 	o := sqliteh.DumpOptions{UniqueOriginInsensitive: true}
@@ -260,7 +260,10 @@ func lineDiff(want, got []string) string {
 	return b.String()
 }
 
-func classify(d *squ.DB) string {
+func classify(d *squ.DB, problems []string) string {
+	if d.HasColumn("t", "q") && squ.OnlyAboutColumn(problems, "q") {
+		return "string-default-delimited-by-apostrophes-is-taken-for-a-quoted-literal"
+	}
 	for _, t := range d.Tables {
 		if len(t.PK) < 2 {
 			continue
@@ -343,7 +346,7 @@ func Replay(r *report.Run, raw json.RawMessage) {
 		r.Case("a", true)
 		r.Case("b", true)
 		if p, _ := evalCLI(context.Background(), *cv.Case.C); len(p) > 0 {
-			r.Violate(classify(stateOf(cv.Case.C.S).Build()), strings.Join(p, " | "), map[string]any{"cli": cv.Case.C})
+			r.Violate(classify(stateOf(cv.Case.C.S).Build(), p), strings.Join(p, " | "), map[string]any{"cli": cv.Case.C})
 		}
 		return
 	}
